@@ -34,7 +34,7 @@ var c09Bad = reg("C09", "c09-malformed", checkC09Bad)
 func xmlCfg() xmodel.GenCfg {
 	return xmodel.GenCfg{MaxDepth: 4, MaxKids: 4, MaxTop: 2, XMLSafe: true, XMLEverywhere: true, Undeclare: true,
 		Names:  []string{"a", "b", "c", "a-b", "a.b", "a1", "é", "_u", "child", "div"},
-		Values: []string{"1", "2", "abc", "x y", " lead", "trail ", "<&>", "a\"b", "a'b", "é€", "𝄞", "]]>", "&amp;", "\t", "line\nbreak", "10", "жук", "ÿþ", "naïve"}}
+		Values: []string{"1", "2", "abc", "x y", " lead", "trail ", "<&>", "a\"b", "a'b", "é€", "𝄞", "]]>", "&amp;", "\t", "line\nbreak", "10", "жук", "ÿþ", "naïve", "Türkçe", "αβγ", "łódź", "þð"}}
 }
 
 type xmlSer struct {
@@ -140,6 +140,12 @@ func (s *xmlSer) node(n *xmodel.Node) {
 		var ats []at
 		for _, d := range n.Decls {
 			if d.Local == "xml" {
+				// the xml prefix is implicitly bound; declaring it explicitly (to its
+				// own namespace) is legal and changes nothing
+				if s.coin("explicitXmlPrefix", 8) {
+					ats = append(ats, at{"xmlns:xml", d.Value})
+					s.feats["explicit-xml-prefix"] = true
+				}
 				continue
 			}
 			name := "xmlns"
@@ -179,12 +185,21 @@ func (s *xmlSer) node(n *xmodel.Node) {
 	}
 }
 
-var encodings = map[string]*charmap.Charmap{"ISO-8859-1": charmap.ISO8859_1, "ISO-8859-15": charmap.ISO8859_15, "windows-1252": charmap.Windows1252, "KOI8-R": charmap.KOI8R}
+// label -> the charset it names (WHATWG labels, which the adapter's charset
+// reader follows; for the characters generated here ISO-8859-1/-9 and their
+// windows-125x supersets agree)
+var encodings = map[string]*charmap.Charmap{"ISO-8859-1": charmap.ISO8859_1, "ISO-8859-15": charmap.ISO8859_15, "windows-1252": charmap.Windows1252, "KOI8-R": charmap.KOI8R,
+	"latin1": charmap.ISO8859_1, "l1": charmap.ISO8859_1, "cp1252": charmap.Windows1252, "ISO-8859-2": charmap.ISO8859_2, "latin2": charmap.ISO8859_2,
+	"ISO-8859-5": charmap.ISO8859_5, "windows-1251": charmap.Windows1251, "ISO-8859-7": charmap.ISO8859_7, "greek": charmap.ISO8859_7,
+	"ISO-8859-9": charmap.ISO8859_9, "latin5": charmap.ISO8859_9, "l5": charmap.ISO8859_9, "ISO-8859-10": charmap.ISO8859_10, "latin6": charmap.ISO8859_10, "Latin6": charmap.ISO8859_10}
+
+var encodingLabels = []string{"", "", "", "UTF-8", "utf-8", "US-ASCII", "ISO-8859-1", "ISO-8859-15", "windows-1252", "KOI8-R", "latin1", "l1", "cp1252", "ISO-8859-2", "latin2",
+	"ISO-8859-5", "windows-1251", "ISO-8859-7", "greek", "ISO-8859-9", "latin5", "l5", "ISO-8859-10", "latin6", "Latin6"}
 
 // serialise renders the model as an XML document under drawn choices.
 func serialise(t *rapid.T, d *xmodel.Doc, utf8Only bool) ([]byte, string, map[string]bool, bool) {
 	s := &xmlSer{t: t, feats: map[string]bool{}}
-	enc := []string{"", "", "UTF-8", "utf-8", "ISO-8859-1", "ISO-8859-15", "windows-1252", "US-ASCII", "KOI8-R"}[rapid.IntRange(0, 8).Draw(t, "encoding")]
+	enc := encodingLabels[rapid.IntRange(0, len(encodingLabels)-1).Draw(t, "encoding")]
 	if utf8Only && enc != "" {
 		enc = "UTF-8"
 	}
